@@ -62,3 +62,26 @@ def circuit_snapshot(r):
     if isinstance(r, dict):
         return tuple(sorted((k, str(v)) for k, v in r.items()))
     return str(r)
+
+
+def earlier_calls_rule(chk, rule, make_caller, snapshot, file, func, inputs):
+    """State that outlives a call (a mutable default argument, a module-level table, a class attribute): a sequence of
+    calls made through *one* evaluation environment must give, call by call, what the same call gives as the first
+    call of a *fresh* environment.  make_caller() -> call(x) bound to a fresh Package; inputs: [(name, make_input)]."""
+    n = 0
+    shared = make_caller()
+    for i, (iname, mk) in enumerate(inputs):
+        key = f"{func}::call {i + 1} of a sequence::{iname}"
+        try:
+            got = ("ok", snapshot(shared(mk())))
+        except ModelRaise as e:
+            got = ("raise", e.kind)
+        try:
+            want = ("ok", snapshot(make_caller()(mk())))
+        except ModelRaise as e:
+            want = ("raise", e.kind)
+        n += 1
+        chk.ob(rule, key, got == want, file=file, func=func, fact={"position_in_sequence": i + 1, "differs_from_first_call_in_a_fresh_environment": got != want,
+                                                                  "got": str(got)[:160] if got != want else None, "fresh": str(want)[:160] if got != want else None},
+               expect="a call's result does not depend on the calls made before it")
+    return n
